@@ -145,7 +145,8 @@ func ext۰reflect۰rtype۰Size(fr *frame, args []value) value {
 
 func ext۰reflect۰rtype۰String(fr *frame, args []value) value {
 	// Signature: func (t reflect.rtype) string
-	return args[0].(rtype).t.String()
+	// reflect qualifies named types by package NAME ("*ast.Ident"), not by import path
+	return types.TypeString(args[0].(rtype).t, func(p *types.Package) string { return p.Name() })
 }
 
 func ext۰reflect۰New(fr *frame, args []value) value {
